@@ -47,6 +47,14 @@ class Potential_Form_Registry(object):
 
     self._register_with_each_other()
 
+    # Everything a formula may call is registered now: check the syntax of every formula, not only of those
+    # that will be evaluated (an error in an unused [Potential-Form] entry went unreported before).
+    if register_pymath_functions:
+      for pform in self._potential_forms.values():
+        check = getattr(pform.potential_function, "check_expression", None)
+        if check:
+          check()
+
     self._definitions = definitions
 
     if register_standard:
